@@ -345,6 +345,7 @@ func boundKey(b map[int]bool) string {
 
 type pstate struct {
 	b       *ssa.BasicBlock
+	prev    *ssa.BasicBlock // the block control came from (to evaluate phis)
 	i       int
 	eff     map[string]int
 	events  []string
@@ -395,6 +396,42 @@ func (e *PathEngine) Summarize(fn *ssa.Function, valKey string, bound map[int]bo
 		}
 		budget--
 		b := s.b
+		if s.i == 0 && s.prev != nil {
+			// phis take the value of the edge control came in through: constants and conditions
+			// decided under the valuation become path facts (a || b || c computed into a variable)
+			k := -1
+			for i, pr := range b.Preds {
+				if pr == s.prev {
+					k = i
+				}
+			}
+			if k >= 0 {
+				var nf *pathFacts
+				for _, ins := range b.Instrs {
+					phi, ok := ins.(*ssa.Phi)
+					if !ok {
+						break
+					}
+					edge := phi.Edges[k]
+					if bt, isB := phi.Type().Underlying().(*types.Basic); isB && bt.Kind() == types.Bool {
+						if d := e.evalCond(edge, s.facts); d != 0 {
+							if nf == nil {
+								nf = s.facts.clone()
+							}
+							nf.boolv[phi] = d > 0
+						}
+					} else if n := e.nilOf(edge, s.facts, 0); n != "?" {
+						if nf == nil {
+							nf = s.facts.clone()
+						}
+						nf.nilness[phi] = n
+					}
+				}
+				if nf != nil {
+					s.facts = nf
+				}
+			}
+		}
 		for i := s.i; i < len(b.Instrs); i++ {
 			switch x := b.Instrs[i].(type) {
 			case *ssa.Defer:
@@ -537,7 +574,7 @@ func (e *PathEngine) Summarize(fn *ssa.Function, valKey string, bound map[int]bo
 					if gate != "" {
 						ev = append(append([]string{}, s.events...), fmt.Sprintf("%s=%v", gate, (k == 0) == gateTrue))
 					}
-					run(pstate{b: succ, eff: s.eff, events: ev, trace: s.trace, facts: fc, visited: vis})
+					run(pstate{b: succ, prev: b, eff: s.eff, events: ev, trace: s.trace, facts: fc, visited: vis})
 				}
 				return
 			case *ssa.Jump:
@@ -550,7 +587,7 @@ func (e *PathEngine) Summarize(fn *ssa.Function, valKey string, bound map[int]bo
 					vis[kk] = true
 				}
 				vis[succ] = true
-				run(pstate{b: succ, eff: s.eff, events: s.events, trace: s.trace, facts: s.facts, visited: vis})
+				run(pstate{b: succ, prev: b, eff: s.eff, events: s.events, trace: s.trace, facts: s.facts, visited: vis})
 				return
 			case *ssa.Return:
 				var ret []string
